@@ -15,6 +15,7 @@ from typing import List, Optional, Tuple
 from ..ctx import C, JS, M, RD, XM, Ctx, call_name, calls_in, walk_function
 from ..fold import ClassRef, Ext, ExtCall, FuncRef, NS, QN, is_unknown
 from ..loader import AnalysisError, dotted, norm
+from ..mutation import resolve_local
 from ..report import Rule, RuleResult
 from .tables import result_kind, rule as _rule_deco_unused  # noqa: F401
 
@@ -110,6 +111,11 @@ def classify_test(ctx: Ctx, qual, test, subject) -> Tuple[str, list, str]:
     mode, kinds, extra = "other", [], []
     for c in conj:
         got = None
+        if isinstance(c, ast.Compare) and isinstance(c.left, ast.Name) and c.left.id != subject:
+            # value_type = type(value); `value_type in TABLE` is the same test as `type(value) in TABLE`
+            rl = resolve_local(fi.node, c.left)
+            if isinstance(rl, ast.Call) and call_name(rl) == "type":
+                c = ast.copy_location(ast.Compare(left=rl, ops=c.ops, comparators=c.comparators), c)
         if isinstance(c, ast.Call) and call_name(c) == "isinstance" and len(c.args) == 2 and norm(c.args[0]) == subject:
             cls = c.args[1]
             elts = cls.elts if isinstance(cls, ast.Tuple) else [cls]
@@ -382,7 +388,10 @@ def json_arm_outcome(ctx: Ctx, q, arm: Arm, subject, k, _depth=0):
         if "type" in d:
             tv = d["type"]
             # LITERAL_XSDTYPE_MAP[type(value)] -> look the concrete kind up
-            if isinstance(tv, ast.Subscript) and isinstance(tv.slice, ast.Call) and call_name(tv.slice) == "type":
+            sl = tv.slice if isinstance(tv, ast.Subscript) else None
+            if isinstance(sl, ast.Name):  # value_type = type(value); TABLE[value_type]
+                sl = resolve_local(ctx.fn(q).node, sl)
+            if isinstance(tv, ast.Subscript) and isinstance(sl, ast.Call) and call_name(sl) == "type":
                 tab = ctx.eval_in(q, tv.value)
                 if isinstance(tab, dict):
                     for key, val in tab.items():
